@@ -106,8 +106,108 @@ def library_alignment(p):
     return {"cases": cases, "distinct": distinct, "failures": fails[:5]}
 
 
+def writers_region_fn():
+    """The `with open(..., 'a')` block of generate_equations' shape loop, extracted from the real source by structure and
+    compiled into a function of its free names (nothing is rewritten; dropped: nothing)."""
+    import ast, inspect
+    import esr.generation.generator as g
+    src = inspect.getsource(g)
+    tree = ast.parse(src)
+    fn = [n for n in tree.body if isinstance(n, ast.FunctionDef) and n.name == "generate_equations"][0]
+    withs = None
+    for s_ in fn.body:
+        if isinstance(s_, ast.For) and any(isinstance(n, ast.Call) and getattr(n.func, "id", None) == "shape_to_functions" for n in ast.walk(s_)):
+            for b in s_.body:
+                if isinstance(b, ast.If) and any(isinstance(w, ast.With) for w in b.body):
+                    withs = [w for w in b.body if isinstance(w, ast.With)]
+    if not withs:
+        raise RuntimeError("writers region of generate_equations not found")
+    f = ast.FunctionDef(name="__writers", args=ast.arguments(posonlyargs=[], args=[ast.arg(arg=a) for a in ("dirname", "compl", "all_tree", "extra_tree", "param_list")],
+                                                              kwonlyargs=[], kw_defaults=[], defaults=[]), body=withs, decorator_list=[], type_params=[])
+    mod = ast.Module(body=[f], type_ignores=[])
+    ast.fix_missing_locations(mod)
+    ns = dict(vars(g))
+    exec(compile(mod, "<writers region of generate_equations>", "exec"), ns)
+    return ns["__writers"]
+
+
+def writers(p):
+    """Bounded stand-in of the writers region: synthetic label arrays whose text has every length in a range, in several orders;
+    every file must get exactly one physical line per tree.  Also validates the A-str facts the deductive contract assumes."""
+    import tempfile, shutil
+    rng = random.Random(p.get("seed", 0))
+    fn = writers_region_fn()
+    pool = ["+", "*", "-", "/", "pow", "x", "a0", "a1", "a2", "inv", "exp", "sqrt_abs", "log_abs", "square", "cube", "sin", "tenexp", "log10_abs", "2", "-1", "10"]
+    lo, hi = p.get("len_lo", 10), p.get("len_hi", 200)
+    bylen_arr, bylen_list = {}, {}
+    tries = 0
+    while (len(bylen_arr) < hi - lo or len(bylen_list) < hi - lo) and tries < 400000:
+        tries += 1
+        n = rng.randint(1, 34)
+        labs = [rng.choice(pool) for _ in range(n)]
+        a = np.array(labs, dtype="U100")
+        L = len(str(a))
+        if lo <= L < hi and L not in bylen_arr:
+            bylen_arr[L] = a
+        l2 = [np.str_(x) for x in labs]
+        L2 = len(str(l2))
+        if lo <= L2 < hi and L2 not in bylen_list:
+            bylen_list[L2] = l2
+    fails, cases, distinct = [], 0, 0
+    astr_bad = []
+    for d in (bylen_arr, bylen_list):
+        for L, t in d.items():
+            s_ = str(t)
+            if not (len(repr(s_)) == len(s_) + 2 + s_.count("\n") and 4 * s_.count("\n") <= len(s_) and len(s_) >= 2):
+                astr_bad.append(s_)
+    tmp = tempfile.mkdtemp(prefix="esrverif_writers_")
+    try:
+        def run_one(all_tree, extra_tree, what):
+            nonlocal cases, distinct
+            for f in os.listdir(tmp):
+                os.remove(os.path.join(tmp, f))
+            with quiet():
+                fn(tmp, 3, all_tree, extra_tree, ["a0", "a1", "a2"])
+            cases += 1
+            distinct += 1
+            want = {"orig_trees_3.txt": len(all_tree), "orig_aifeyn_3.txt": len(all_tree), "extra_trees_3.txt": len(extra_tree), "extra_aifeyn_3.txt": len(extra_tree)}
+            for name, n in want.items():
+                pth = os.path.join(tmp, name)
+                got = len(open(pth).read().splitlines()) if os.path.exists(pth) else -1
+                if got != n:
+                    fails.append({"what": what, "file": name, "all_tree": [list(map(str, t)) for t in all_tree], "extra_tree": [list(map(str, t)) for t in extra_tree],
+                                  "error": "%s: %s has %d lines for %d trees (text lengths %s / %s)" % (
+                                      what, name, got, n, [len(str(t)) for t in all_tree], [len(str(t)) for t in extra_tree])})
+                    return
+        if p.get("explicit"):
+            for c in p["explicit"]:
+                run_one([np.array(t, dtype="U100") for t in c["all_tree"]], [[np.str_(x) for x in t] for t in c["extra_tree"]], "replay")
+        else:
+            Ls = sorted(bylen_arr)
+            Ll = sorted(bylen_list)
+            for L in Ls:
+                run_one([bylen_arr[L]], [], "a single original tree of text length %d" % L)
+                if len(fails) >= 3:
+                    break
+            for L in Ll:
+                run_one([], [bylen_list[L]], "a single rewritten tree of text length %d" % L)
+                if len(fails) >= 3:
+                    break
+            for it in range(p.get("n_mixed", 300)):
+                k1, k2 = rng.randint(0, 6), rng.randint(0, 6)
+                run_one([bylen_arr[rng.choice(Ls)] for _ in range(k1)], [bylen_list[rng.choice(Ll)] for _ in range(k2)], "mixed lists")
+                if len(fails) >= 3:
+                    break
+            run_one([bylen_arr[L] for L in Ls], [bylen_list[L] for L in Ll], "ascending lengths")
+            run_one([bylen_arr[L] for L in reversed(Ls)], [bylen_list[L] for L in reversed(Ll)], "descending lengths")
+    finally:
+        shutil.rmtree(tmp, ignore_errors=True)
+    return {"cases": cases, "distinct": distinct, "failures": fails[:3], "lengths_arrays": [min(bylen_arr), max(bylen_arr), len(bylen_arr)],
+            "lengths_lists": [min(bylen_list), max(bylen_list), len(bylen_list)], "astr_violations": astr_bad[:3]}
+
+
 def main(p):
-    return {"random": random_cases, "library": library_alignment}[p["mode"]](p)
+    return {"random": random_cases, "library": library_alignment, "writers": writers}[p["mode"]](p)
 
 
 if __name__ == "__main__":
